@@ -12,6 +12,8 @@ fn main() {
             ns.push(anchor - 3 + d);
         }
     }
+    // buffers larger than any message: 16-bit and page-size arithmetic on the capacity
+    ns.extend([8192usize, 16384, 32768, 65535, 65536, 65537, 70000, 131072]);
     ns.sort();
     ns.dedup();
     let mut s = String::new();
